@@ -542,6 +542,15 @@ func pops(f []*node, route byte, maxEntries int) [][]*pop {
 				if maxEntries >= 3 {
 					alts = append(alts, &pop{Entries: [][]*pop{clonePops(last), clonePops(last), clonePops(first)}})
 				}
+				// two entries whose nested groups both have entries, but not the same number of them (a count
+				// looked up in the wrong place finds the other entry's)
+				for k := len(entryAlts) - 2; k > 0; k-- {
+					if sg := entryCounts(entryAlts[k]); sg != entryCounts(last) && strings.ContainsAny(sg, "123456789") {
+						alts = append(alts, &pop{Entries: [][]*pop{clonePops(entryAlts[k]), clonePops(last)}},
+							&pop{Entries: [][]*pop{clonePops(last), clonePops(entryAlts[k])}})
+						break
+					}
+				}
 			}
 		}
 		var nr [][]*pop
@@ -553,6 +562,24 @@ func pops(f []*node, route byte, maxEntries int) [][]*pop {
 		res = nr
 	}
 	return res
+}
+
+// entryCounts: the numbers of entries of the groups nested in an entry, in depth-first order.
+func entryCounts(ps []*pop) string {
+	var b strings.Builder
+	for _, p := range ps {
+		switch {
+		case p.Kids != nil:
+			b.WriteString(entryCounts(p.Kids))
+		case p.Entries != nil:
+			b.WriteString(strconv.Itoa(len(p.Entries)) + "(")
+			for _, e := range p.Entries {
+				b.WriteString(entryCounts(e))
+			}
+			b.WriteString(")")
+		}
+	}
+	return b.String()
 }
 
 func popKey(ps []*pop) string {
